@@ -522,7 +522,8 @@ def run_cut(req):
         opf.pre_distances = np.array(D)
     else:
         opf.distance_fn = lambda a, b: D[int(a[0])][int(b[0])]
-    g, _ = _graph(branch, n, D)
+    rows = cfg.get("idx") or list(range(n))
+    g, _ = _graph(branch, n, D, idx=cfg.get("idx"))
     opf.subgraph = g
     for i in range(n):
         g.nodes[i].adjacency = [float(a) for a in req["adjs"][i]]
@@ -536,11 +537,12 @@ def run_cut(req):
             if req["clus"][i] != l:
                 continue
             for j in req["adjs"][i]:
-                if D[i][j] > 0:
+                dij = D[rows[i]][rows[j]]
+                if dij > 0:
                     if req["clus"][j] == l:
-                        internal += 1 / D[i][j]
+                        internal += 1 / dij
                     else:
-                        external += 1 / D[i][j]
+                        external += 1 / dij
         if internal + external > 0:
             total += external / (internal + external)
     bad = [] if math.isclose(cut, total, rel_tol=1e-9, abs_tol=1e-12) else ["normalised-cut-matches-its-definition"]
